@@ -389,6 +389,9 @@ void Session::end_call(Call &c, int rc, size_t consumed) {
     c.in_status = connp_->in_status; c.out_status = connp_->out_status;
     c.in_counter = connp_->conn->in_data_counter; c.out_counter = connp_->conn->out_data_counter;
     c.in_state = htp_connp_in_state_as_string(connp_); c.out_state = htp_connp_out_state_as_string(connp_);
+    // what an application does after every call (test/main.c does it after an error): look at the last error record. The record must be alive:
+    // reading it is an ASan report if the library freed it and kept the pointer.
+    if (htp_log_t *le = htp_connp_get_last_error(connp_)) { volatile size_t sink = (le->msg ? strlen(le->msg) : 0) + (size_t)le->code + (size_t)le->level + (le->file ? strlen(le->file) : 0); (void)sink; }
     if (o_.monitors) {
         // C10: bytes retained for an unfinished line stay within the hard limit; transactions held <= max_tx + 1
         if (c.in_buf > hard_limit_) viol(std::string("C10:request_buffer_over_hard_limit@") + c.in_state);
